@@ -111,12 +111,14 @@ pub struct Case {
 
 fn shape_choice() -> impl Strategy<Value = Vec<usize>> {
     prop_oneof![
-        3 => (3usize..=60).prop_map(|n| vec![n + 1]),
-        1 => (61usize..=300).prop_map(|n| vec![n + 1]),
-        2 => Just(vec![3usize, 3]),
-        3 => (2usize..=7, 2usize..=7).prop_map(|(a, b)| if a == b { vec![a, b + 1] } else { vec![a, b] }),
-        3 => Just((2usize..=6).collect::<Vec<_>>()).prop_shuffle().prop_map(|mut v| { v.truncate(3); v }),
-        3 => Just((2usize..=6).collect::<Vec<_>>()).prop_shuffle().prop_map(|mut v| { v.truncate(4); v }),
+        12 => (3usize..=60).prop_map(|n| vec![n + 1]),
+        4 => (61usize..=300).prop_map(|n| vec![n + 1]),
+        8 => Just(vec![3usize, 3]),
+        12 => (2usize..=7, 2usize..=7).prop_map(|(a, b)| if a == b { vec![a, b + 1] } else { vec![a, b] }),
+        12 => Just((2usize..=6).collect::<Vec<_>>()).prop_shuffle().prop_map(|mut v| { v.truncate(3); v }),
+        12 => Just((2usize..=6).collect::<Vec<_>>()).prop_shuffle().prop_map(|mut v| { v.truncate(4); v }),
+        // more than 4096 / 8192 entries (block-wise sums and writers), while the marginals stay small
+        1 => prop_oneof![Just(vec![65usize, 64]), Just(vec![70, 61]), Just(vec![18, 16, 15]), Just(vec![17, 15, 17]), Just(vec![9, 8, 7, 10]), Just(vec![10, 9, 11, 9]), Just(vec![4098]), Just(vec![8195])],
     ]
 }
 
@@ -258,6 +260,9 @@ fn eval(_ctx: &Ctx, case: &Case) -> Verdict {
     pass.nontrivial = (d == 1 || lens.len() >= 2 || spec.shape == [3, 3]) && interior >= 4 && mono_changed(spec.values[0], case.mono.0) && mono_changed(spec.values[last], case.mono.1);
     pass.count("relations-compared", compared);
     pass.add_label(format!("axes={d}"));
+    if spec.values.len() > 4096 {
+        pass.add_label("more-than-4096-entries");
+    }
     if spec.shape == [3, 3] {
         pass.add_label("3x3");
     }
@@ -287,10 +292,14 @@ fn cli_strategy() -> impl Strategy<Value = CliCase> {
 }
 
 fn cli_stats(ctx: &Ctx, dir: &std::path::Path, stats: &[Stat], input: &str, fold_first: bool) -> Result<Vec<f64>, Failure> {
+    cli_stats_p(ctx, dir, stats, input, fold_first, 17)
+}
+
+fn cli_stats_p(ctx: &Ctx, dir: &std::path::Path, stats: &[Stat], input: &str, fold_first: bool, fold_precision: usize) -> Result<Vec<f64>, Failure> {
     let list = stats.iter().map(|s| s.cli()).collect::<Vec<_>>().join(",");
     let run = if fold_first {
         let bin = ctx.sfs_bin.to_string_lossy().into_owned();
-        let script = format!("set -o pipefail; \"{bin}\" fold --fill zero --precision 17 {input} | \"{bin}\" stat -s {list} --precision 12");
+        let script = format!("set -o pipefail; \"{bin}\" fold --fill zero --precision {fold_precision} {input} | \"{bin}\" stat -s {list} --precision 12");
         cli::run_bin(ctx, std::path::Path::new("/bin/bash"), &["-c", &script], Input::Null, dir, &[])
     } else {
         cli::sfs(ctx, &["stat", "-s", &list, "--precision", "12", input], Input::Null, dir)
@@ -370,6 +379,25 @@ fn eval_cli(ctx: &Ctx, case: &CliCase) -> Verdict {
             None => {}
         }
     }
+    // a tiny positive constant (2^-70, exact), the spectrum folded through the text format at a
+    // precision that keeps every digit: the scale-free statistics must not notice either step
+    {
+        let c = 2f64.powi(-70);
+        let tiny = Spec::new(spec.shape.clone(), spec.values.iter().map(|v| v * c).collect());
+        write("tiny.sfs", &tiny);
+        let sel: Vec<Stat> = stats.iter().copied().filter(|s| matches!(s, Stat::F2 | Stat::F3 | Stat::F4 | Stat::Fst | Stat::King | Stat::R0 | Stat::R1)).collect();
+        if !sel.is_empty() {
+            let t = cli_stats_p(ctx, &dir, &sel, "tiny.sfs", true, 60)?;
+            for (stat, b) in sel.iter().zip(&t) {
+                let a = base[stats.iter().position(|s| s == stat).unwrap()];
+                match near(*stat, a, *b) {
+                    Some(false) => fail!("`sfs fold --fill zero --precision 60 | sfs stat -s {}` on the input multiplied by 2^-70 = {b}, on the input itself {a} (shape {:?} counts {:?})", stat.cli(), case.shape, case.counts),
+                    Some(true) => compared += 1,
+                    None => {}
+                }
+            }
+        }
+    }
     // transposition
     if case.shape.len() == 2 {
         write("t.sfs", &spec.permute_axes(&[1, 0]));
@@ -384,7 +412,7 @@ fn eval_cli(ctx: &Ctx, case: &CliCase) -> Verdict {
             }
         }
     }
-    let mut pass = Pass::new().nontrivial(case.counts.iter().filter(|c| **c != 0).count() >= 6).label(format!("axes={}", case.shape.len()));
+    let mut pass = Pass::new().nontrivial(case.counts.iter().filter(|c| **c != 0).count() >= 6).label(format!("axes={}", case.shape.len())).label(if case.counts.len() > 4096 { "more-than-4096-entries" } else { "at-most-4096-entries" });
     pass.count("relations-compared", compared);
     Ok(pass)
 }
@@ -393,14 +421,14 @@ pub fn check(ctx: &Ctx) -> Check {
     let parts: Vec<Box<dyn Part>> = vec![
         Box::new(RandomPart {
             name: "lib-relations",
-            rule: "one-axis (n 3..300), two-axis (unequal lengths, and 3x3), 3- and 4-axis spectra with pairwise different lengths 2..6, non-negative random values: f3/f4 == the documented linear combinations of f2 over the two-population marginals (harness marginalization) of the normalised spectrum; fold with fill 0 (harness model and sfs's own fold) leaves pi, theta, S, Tajima's D, pi_xy, f2, f3, f4, Fst, KING, R0, R1 unchanged; replacing the two monomorphic entries leaves everything except sum/f2/f3/f4 unchanged; transposition leaves f2, Fst, pi_xy, KING, R0, R1 unchanged; scaling by 2^k (exact) and by an arbitrary c > 0 leaves f2/f3/f4/Fst/KING/R0/R1 unchanged and scales sum/S/pi/pi_xy/theta by c; non-trivial = >=4 non-zero interior cells and both monomorphic entries changed by a factor >= 2",
+            rule: "one-axis (n 3..300), two-axis (unequal lengths, and 3x3), 3- and 4-axis spectra with pairwise different lengths 2..6, and (one case in sixty) spectra of 4 098 .. 8 910 entries in 1..4 axes, non-negative random values: f3/f4 == the documented linear combinations of f2 over the two-population marginals (harness marginalization) of the normalised spectrum; fold with fill 0 (harness model and sfs's own fold) leaves pi, theta, S, Tajima's D, pi_xy, f2, f3, f4, Fst, KING, R0, R1 unchanged; replacing the two monomorphic entries leaves everything except sum/f2/f3/f4 unchanged; transposition leaves f2, Fst, pi_xy, KING, R0, R1 unchanged; scaling by 2^k (exact) and by an arbitrary c > 0 leaves f2/f3/f4/Fst/KING/R0/R1 unchanged and scales sum/S/pi/pi_xy/theta by c; non-trivial = >=4 non-zero interior cells and both monomorphic entries changed by a factor >= 2",
             cases: ctx.tier.pick(40_000, 3_000_000),
             strategy: Box::new(|| strategy().boxed()),
             eval: Box::new(eval),
         }),
         Box::new(RandomPart {
             name: "cli-relations",
-            rule: "integer spectra through `sfs fold --fill zero | sfs stat` vs `sfs stat` directly, the scaling relation and the transposition relation through `sfs stat --precision 12`, and every statistic requested alone, in a list, and in a differently ordered list of one invocation must print the same value (the normalisation in front of f2/f3/f4/Fst lives in the CLI)",
+            rule: "integer spectra through `sfs fold --fill zero | sfs stat` vs `sfs stat` directly, the scaling relation (by an integer 2..9, and by 2^-70 combined with `fold --fill zero --precision 60` for the scale-free statistics) and the transposition relation through `sfs stat --precision 12`, and every statistic requested alone, in a list, and in a differently ordered list of one invocation must print the same value (the normalisation in front of f2/f3/f4/Fst lives in the CLI)",
             cases: ctx.tier.pick(800, 20_000),
             strategy: Box::new(|| cli_strategy().boxed()),
             eval: Box::new(eval_cli),
